@@ -436,8 +436,10 @@ Section Model.
 
   (* Load: if the file at the path hashes to the digest the content stays and only the exec bit is
      brought to the recorded one (Stat; Chmod 0644|0755 when it differs); else CAS read,
-     MkdirAll(parent) (since bb649a3), os.Create(path) (directory at the path => error; existing
-     file => truncated), copy, Chmod 0644|0755 from is_executable. *)
+     MkdirAll(parent) (since bb649a3), a directory sitting at the path is removed with everything in
+     it (Lstat + RemoveAll, since the repair of C06-F3; only after the blob was found, so a failed
+     restore leaves the path as it was), os.Create(path) (existing file => truncated), copy,
+     Chmod 0644|0755 from is_executable. *)
   Definition file_load (m : file_msg) (st : cas) (dest : dest_state) : result node :=
     match dest with
     | DFile c _ =>
@@ -446,21 +448,20 @@ Section Model.
              | Some b => Done (File b (fm_exec m))
              | None => Error
              end
-    | DAbsent | DParentAbsent =>
+    | DAbsent | DParentAbsent | DDir _ =>
         match cas_get st (d_hash (fm_digest m)) with
         | Some b => Done (File b (fm_exec m))
         | None => Error
         end
-    | DDir _ => Error
     end.
 
   (* the exec bit found at the path before a restore (what a restore ended with before
      FileOutput.is_executable was recorded; kept for the driver's report) *)
   Definition file_restore_exec (dest : dest_state) : bool :=
     match dest with DFile _ x => x | _ => false end.
-  (* FileOutputHandler.Load does not clear the path: a directory sitting there makes os.Create fail *)
-  Definition file_restore_possible (dest : dest_state) : bool :=
-    match dest with DDir _ => false | _ => true end.
+  (* the path already holds the recorded content (the only case in which Load does not read the store) *)
+  Definition file_in_place (m : file_msg) (dest : dest_state) : bool :=
+    match dest with DFile c _ => str_eqb (H c) (d_hash (fm_digest m)) | _ => false end.
 End Model.
 
 (* ------------------------------------------------------------------ concrete injective encoders
